@@ -660,6 +660,15 @@ def run(ctx):
     # ---- proofs --------------------------------------------------------------
     r = ctx.coq_props()
     ctx.log('proofs: ok=%s' % r['ok'])
+    if r['ok'] and not ctx.quick:
+        # independent re-check of the compiled theory (DESIGN section 6)
+        rc, out = core.sh('timeout 900 coqchk -silent -o -R . DV DV.Props.C09', cwd=core.COQ)
+        summary = out[out.find('CONTEXT SUMMARY'):][:1200] if 'CONTEXT SUMMARY' in out else out[-1200:]
+        ctx.note('coqchk', {'exit': rc, 'summary': summary})
+        ctx.cov['checker_cmd'] += ' && coqchk -silent -o -R . DV DV.Props.C09'
+        if rc != 0 or 'Axioms: <none>' not in out:
+            r = dict(r, ok=False, failing='coqchk Props/C09', log=out[-3000:])
+        ctx.log('coqchk: exit=%d' % rc)
     # thorough: 1500 engines; quick: 240, or 720 when a fingerprint changed
     n = 1500 if not ctx.quick else (720 if escalate else 240)
     cases = gen_cases(ctx, n)
